@@ -138,7 +138,8 @@ CREATORS = ["CREATE", "REGISTER", "CREATE_KEY_PAIR", "DERIVE_KEY"]
 FOLLOWERS = ["GET", "GET_ATTRIBUTES", "ACTIVATE", "DESTROY", "GET_ATTRIBUTE_LIST"]
 
 
-def placeholder(creator):
+def placeholder(creator, oracle="c08"):
+    """oracle 'c13': the same batches, asserting only that no item ends in General Failure."""
     def h(fi: int, with_ids: bool, third: bool) -> bool:
         """
         post: _
@@ -158,6 +159,11 @@ def placeholder(creator):
         resp, _, _ = e.process_request(mk_request(items), ["alice", None])
         reach()
         rs = resp.batch_items
+        if oracle == "c13":
+            for r in rs:
+                if r.result_reason is not None and r.result_reason.value == enums.ResultReason.GENERAL_FAILURE:
+                    return False
+            return True
         if len(rs) != len(items):
             return False
         if rs[0].result_status.value != enums.ResultStatus.SUCCESS:
@@ -288,6 +294,95 @@ def no_trace(op, kind, version, ni, menu=None):
     return h
 
 
+def _tmpl(names, alg, length, mask, extra, tag=None):
+    A = enums.AttributeType
+    attrs = []
+    for nm in names:
+        attrs.append(P.name_attr(nm))
+    if alg is not None:
+        attrs.append(P.AF.create_attribute(A.CRYPTOGRAPHIC_ALGORITHM, alg))
+    if length is not None:
+        attrs.append(P.AF.create_attribute(A.CRYPTOGRAPHIC_LENGTH, length))
+    if mask:
+        attrs.append(P.AF.create_attribute(A.CRYPTOGRAPHIC_USAGE_MASK, [enums.CryptographicUsageMask.ENCRYPT,
+                                                                       enums.CryptographicUsageMask.SIGN]))
+    if extra == 1:
+        attrs.append(P.AF.create_attribute(A.OPERATION_POLICY_NAME, "default"))
+    elif extra == 2:
+        attrs.append(P.AF.create_attribute(A.OBJECT_GROUP, "grp"))
+    elif extra == 3:
+        attrs.append(P.AF.create_attribute(A.CONTACT_INFORMATION, "x@y"))      # not supported by the server
+    if tag is None:
+        return cobjects.TemplateAttribute(attributes=attrs)
+    return cobjects.TemplateAttribute(attributes=attrs, tag=tag)
+
+
+def no_trace_create(creator, fix_split=None):
+    """A creating operation that fails - at whatever point - leaves nothing in the store or session."""
+    CA = enums.CryptographicAlgorithm
+    LENS = [128, 0, 7, 192, 2048]
+
+    def h(n0: str, n1: str, n2: str, n3: str, k_a: int, k_b: int, has_alg: bool, has_len: bool, len_sel: int,
+          has_mask: bool, extra: int, split: int, bec_continue: bool) -> bool:
+        """
+        post: _
+        """
+        for t in (n0, n1, n2, n3):
+            if len(t) > 1:
+                return True
+        if not (0 <= k_a <= 2 and 0 <= k_b <= 2 and 0 <= len_sel < len(LENS) and 0 <= extra <= 3 and 0 <= split <= 2):
+            return True
+        if creator != "CREATE_KEY_PAIR" and (k_b or split or len(n2) or len(n3)):
+            return True
+        if fix_split is not None and (split != fix_split or len_sel > 1 or extra in (1, 2)):
+            return True
+        if fix_split == 0 and k_b:
+            return True
+        names_a = [n0, n1][:k_a]
+        names_b = [n2, n3][:k_b]
+        length = None
+        if has_len:
+            for i in range(len(LENS)):
+                if len_sel == i:
+                    length = LENS[i]
+        M = enums.CryptographicUsageMask
+        base = mk_obj("SymmetricKey", uid=1, owner="alice", state=ST.ACTIVE, masks=[M.DERIVE_KEY], names=["base"])
+        e, s = mk_engine([base], identity=("alice", None), crypto=P.RecordingCrypto())
+        before = [snapshot(o) for o in s.objs]
+        if creator == "CREATE":
+            payload = P.mk("CREATE", template=_tmpl(names_a, CA.AES if has_alg else None, length, has_mask, extra))
+        elif creator == "REGISTER":
+            payload = P.mk("REGISTER", template=_tmpl(names_a, None, None, has_mask, extra))
+        elif creator == "DERIVE_KEY":
+            payload = P.mk("DERIVE_KEY", "1", template=_tmpl(names_a, CA.AES if has_alg else None, length, has_mask, extra))
+        else:
+            T = enums.Tags
+            alg = CA.RSA if has_alg else None
+            # split 0: everything in the common template; 1: names split over public/private; 2: private only
+            common = _tmpl([] if split else names_a, alg, length, has_mask, extra, tag=T.COMMON_TEMPLATE_ATTRIBUTE)
+            pub = _tmpl(names_a if split == 1 else [], None, None, False, 0, tag=T.PUBLIC_KEY_TEMPLATE_ATTRIBUTE)
+            priv = _tmpl(names_b if split else [], None, None, False, 0, tag=T.PRIVATE_KEY_TEMPLATE_ATTRIBUTE)
+            from kmip.core.messages import payloads
+            payload = payloads.CreateKeyPairRequestPayload(common_template_attribute=common,
+                                                           private_key_template_attribute=priv,
+                                                           public_key_template_attribute=pub)
+        items = [(getattr(OP, creator), b"1", payload), (OP.GET_ATTRIBUTE_LIST, b"2", P.mk("GET_ATTRIBUTE_LIST", "1"))]
+        req = mk_request(items, bec=BEC.CONTINUE if bec_continue else None)
+        resp, _, _ = e.process_request(req, ["alice", None])
+        reach()
+        r0 = resp.batch_items[0]
+        if r0.result_status.value == enums.ResultStatus.SUCCESS:
+            return True
+        # failed: no trace - nothing added, nothing pending for a later item's commit to persist
+        if s.pending:
+            return False
+        for ev in s.log:
+            if ev[0] in ("add", "delete") or (ev[0] == "commit" and ev[1]):
+                return False
+        return [snapshot(o) for o in s.objs] == before
+    return h
+
+
 def conditions(tier):
     thorough = tier == "thorough"
     out = []
@@ -312,6 +407,22 @@ def conditions(tier):
             out.append(Cond("notrace-%s-%s" % (op, k), "no_trace", dict(op=op, kind=k, version=[1, 2], ni=None),
                             bounds="%s on %s in any storable state, any revocation code, owner or not" % (op, k),
                             timeout=300, part="notrace"))
+    for sp in (0, 1, 2):
+        out.append(Cond("notrace-create-CREATE_KEY_PAIR-split%d" % sp, "no_trace_create",
+                        dict(creator="CREATE_KEY_PAIR", fix_split=sp),
+                        bounds="CreateKeyPair, names (text len<=1) %s; algorithm / length (128, 0) / usage mask present or "
+                               "not, extra attribute none / unsupported; second item follows; Stop or Continue"
+                               % ["0-2 in the common template", "0-2 public + 0-2 private", "0-2 private only"][sp],
+                        timeout=900, part="notrace"))
+    for c in CREATORS:
+        if c == "CREATE_KEY_PAIR":
+            continue
+        out.append(Cond("notrace-create-%s" % c, "no_trace_create", dict(creator=c),
+                        bounds="%s with 0-2 names per template (text len<=1, so duplicates occur), algorithm / length "
+                               "(128, 0, 7, 192, 2048) / usage mask present or not, extra attribute none / policy name / "
+                               "object group / unsupported; CreateKeyPair: attributes in the common template or split "
+                               "over public/private; followed by a second item; Stop or Continue" % c,
+                        timeout=900, part="notrace"))
     for op in ("DELETE_ATTRIBUTE", "MODIFY_ATTRIBUTE", "SET_ATTRIBUTE"):
         for v in versions:
             if op == "SET_ATTRIBUTE" and v != (2, 0):
